@@ -314,3 +314,14 @@ def json_text_roundtrip(js):
     import json
 
     return json.loads(json.dumps(js))
+
+
+def is_json_compatible(x):
+    """json.dumps-able (tuples allowed: they become arrays); weaker than is_json_pure."""
+    if x is None or isinstance(x, (bool, int, float, str)):
+        return True
+    if type(x) in (list, tuple):
+        return all(is_json_compatible(i) for i in x)
+    if type(x) is dict:
+        return all(type(k) is str and is_json_compatible(v) for k, v in x.items())
+    return False
